@@ -136,6 +136,12 @@ def run(ctx):
         prog = ctx.prog(cfg)
         lv = gate.Leaves(prog)
         _txn_insertion(ctx, cfg, prog, ctx.mod(cfg))
+        import c08
+        II = 'core::algorithms::incremental_insertion::'
+        c08._postorient(ctx, cfg, prog, lv, drivers={II + 'fill_cavity', II + 'extend_hull'},
+                        leaves={TR + 'normalize_and_promote_positive_orientation', TR + 'validate_geometric_cell_orientation'},
+                        rule='INSORIENT', what='a cell-creating insertion primitive (fill_cavity / extend_hull)',
+                        scope=lambda q_, b_: q_.rsplit('::', 1)[-1].startswith('insert'))
         import twins
         ctx.rule('TWIN', 'insert and insert_with_statistics call the same functions (statistics bookkeeping aside)')
         twins.check(ctx, cfg, prog, 'TWIN', lambda q_: q_.rsplit('::', 1)[-1].startswith('insert'), 1)
